@@ -68,6 +68,7 @@ func runC01(c *core.Ctx) error {
 		gi := indexGenerated(p)
 		checkPaths(c, r1, fx, p, gi)
 		checkParamConfigs(c, r2, fx, p, gi)
+		checkOptionalAbsent(c, r2, fx, p, gi)
 		checkResponseVariants(c, r3, exp, fx, p, gi)
 		checkSetDefaultsFirst(c, r4, exp, fx)
 		checkMiddlewareKeys(c, r5, fx, p, gi)
